@@ -19,6 +19,8 @@ def cell_items(cells):
 def to_python_cells(cells):
     out = {}
     for key, content in cell_items(cells):
+        if content['c'] == 'const' and content['v'].get('t') == 'blank':
+            continue          # a cell the workbook never stored (it comes into being when a value is set)
         if content['c'] == 'const':
             out[addr(key)] = xl.from_abs(content['v'], 'native')
         else:
